@@ -25,24 +25,24 @@ Proof.
   specialize (H P). vm_compute in H. discriminate.
 Qed.
 
-(* Full statement, rejection part, for the conflict kind "a shared field with different type or arguments". *)
-Definition C05_signature_full : Prop := forall uA A uB B T f g,
-  (exists dA, In dA A /\ d_name dA = T /\ In f (d_fields dA)) ->
-  (exists dB, In dB B /\ d_name dB = T /\ In g (d_fields dB)) ->
-  f_name f = f_name g -> f <> g -> accepted [(uA, A); (uB, B)] = false.
-
-(* False (listed finding C05-field-signature): V{x:Int} and V{x:String} merge, one side silently wins. *)
-Theorem C05_signature_refuted : ~ C05_signature_full.
+(* The rejection part, for the conflict kind "a shared field with different type or arguments" (formerly the listed
+   finding C05-field-signature: V{x:Int} and V{x:String} merged and one side silently won; refuted here until the fix):
+   two services that declare, in a same-named type that has fields, a field of one name with another type, other
+   arguments or other argument defaults are rejected, whatever else the schemas contain. (Root types: the theorem
+   duplicate_root_field_conflict below; the Node interface itself is never compared.) *)
+Theorem shared_field_with_another_signature_is_rejected : forall uA A uB B dA dB f g,
+  In dB B -> find_def (d_name dB) A = Some dA -> is_builtin (d_name dB) = false ->
+  d_name dB <> "Node" -> is_root (d_name dB) = false -> fielded (d_kind dB) ->
+  In g (d_fields dA) -> is_builtin (f_name g) = false ->
+  find (fun r => f_name r =? f_name g) (d_fields dB) = Some f -> same_sig f g = false ->
+  accepted [(uA, A); (uB, B)] = false.
 Proof.
-  intros H.
-  specialize (H "A" (vx "q1") "B" [mkDef KObject "Query" "" [] [mkField "q2" [] "V"] [] []; mkDef KObject "V" "" [] [mkField "x" [] "String"] [] []]
-                "V" (mkField "x" [] "Int") (mkField "x" [] "String")).
-  assert (accepted [("A", vx "q1"); ("B", [mkDef KObject "Query" "" [] [mkField "q2" [] "V"] [] []; mkDef KObject "V" "" [] [mkField "x" [] "String"] [] []])] = false).
-  { apply H; try reflexivity; try discriminate.
-    - eexists. split; [right; left; reflexivity|]. cbn. auto.
-    - eexists. split; [right; left; reflexivity|]. cbn. auto. }
-  vm_compute in H0. discriminate.
+  intros uA A uB B dA dB f g H1 H2 H3 H4 H5 H6 H7 H8 H9 H10. unfold accepted.
+  destruct (signature_conflict_rejected2 uA A uB B dA dB f g H1 H2 H3 H4 H5 H6 H7 H8 H9 H10) as (es & ->). reflexivity.
 Qed.
+Example signature_conflict_example :
+  accepted [("A", vx "q1"); ("B", [mkDef KObject "Query" "" [] [mkField "q2" [] "V"] [] []; mkDef KObject "V" "" [] [mkField "x" [] "String"] [] []])] = false.
+Proof. vm_compute. reflexivity. Qed.
 
 (* What is proved (C05_partial): with two services, every other conflict kind of the statement is an error
    (never accepted, and the model has no panic outcome), whatever else the schemas contain. *)
@@ -85,7 +85,8 @@ Theorem node_field_overlap_conflict : forall va nvb f,
   implements_node nvb = true -> implements_node va = true ->
   In f (d_fields va) -> is_builtin (f_name f) = false -> is_id_field f = false ->
   field_named (f_name f) (d_fields nvb) = true ->
-  merge_def va nvb = Fail EOverlapNode.
+  (* an error either way: as an overlap of a Node type, or already for the field's differing signature *)
+  merge_def va nvb = Fail EOverlapNode \/ merge_def va nvb = Fail ESignature.
 Proof. exact conflict_node_field. Qed.
 
 (* a shared plain type or input that is neither identical nor disjoint: the field scan reports an error *)
@@ -103,7 +104,7 @@ Example c05_nonvacuous :
 Proof. eexists. split; [vm_compute; reflexivity|]. now left. Qed.
 
 Print Assumptions C05_order_refuted.
-Print Assumptions C05_signature_refuted.
+Print Assumptions shared_field_with_another_signature_is_rejected.
 Print Assumptions conflict_is_rejected.
 Print Assumptions different_kinds_conflict.
 Print Assumptions union_members_conflict.
